@@ -185,6 +185,10 @@ def sigop_cases(rnd, n_multi=400):
                 out.append((sv, bytes([0xac, 0x91]), [sg, k], f"checksig-not {sn}/{kn}"))
             out.append((0, bytes([0xad, 0x51]), [sg, k], f"checksigverify {sn}/{kn}"))
             out.append((3, bytes([0xba]), [sg, b"", k], f"checksigadd {sn}/{kn}"))
+            # the counter operand is a number like any other: decoded (size, minimality) whatever the signature is
+            nn = [b"\x01", b"\x01\x00", b"\x00", b"\x80", b"\xff\xff\xff\x7f", b"\x01\x02\x03\x04\x05", b"\x00" * 5, b"\x10"]
+            n_op = nn[(len(out) // 7) % len(nn)]
+            out.append((3, bytes([0xba]), [sg, n_op, k], f"checksigadd n={n_op.hex()} {sn}/{kn}"))
             for sv in (0, 1):
                 out.append((sv, bytes([0xae, 0x91]), [b"", sg, b"\x01", k, b"\x01"], f"multisig-1of1-not {sn}/{kn}"))
                 out.append((sv, bytes([0xae]), [b"", sg, b"\x01", k, b"\x01"], f"multisig-1of1 {sn}/{kn}"))
